@@ -102,6 +102,15 @@ pub fn catalogue() -> Vec<Placement> {
         t("nontail/other-function", "fn v_f(v_n: int, v_a: int)->int{ fn v_h(v_m: int, v_b: int)->int{ v_f(v_m, v_b) } if(v_n == 0, v_a, v_h(v_n - 1, v_a + 1)) }", false, 2),
         Placement { name: "nontail/if-condition", decl: "fn v_f(v_n: int)->bool{ if(v_n == 0, true, if(v_f(v_n - 1), true, false)) }", main_ty: "bool", main_body: "v_f({N})", tail: false, value: vtrue, frames_per_level: 1, calls_per_level: 1, extra_calls: 0, extra_height: 0, error_arg: false },
         Placement { name: "nontail/or-first-arg", decl: "fn v_f(v_n: int)->bool{ v_n == 0 || (v_f(v_n - 1) || false) }", main_ty: "bool", main_body: "v_f({N})", tail: false, value: vtrue, frames_per_level: 1, calls_per_level: 1, extra_calls: 0, extra_height: 0, error_arg: false },
+        // the self-call is the right operand of a short-circuit / lazy operator that is itself NOT in tail position
+        Placement { name: "nontail/or-right-under-not", decl: "fn v_f(v_n: int)->bool{ !(v_n == 0 || !v_f(v_n - 1)) }", main_ty: "bool", main_body: "v_f({N})", tail: false, value: vfalse, frames_per_level: 1, calls_per_level: 1, extra_calls: 0, extra_height: 0, error_arg: false },
+        Placement { name: "nontail/and-right-under-not", decl: "fn v_f(v_n: int)->bool{ !(v_n != 0 && !v_f(v_n - 1)) }", main_ty: "bool", main_body: "v_f({N})", tail: false, value: vtrue, frames_per_level: 1, calls_per_level: 1, extra_calls: 0, extra_height: 0, error_arg: false },
+        Placement { name: "nontail/or-right-in-if-condition", decl: "fn v_f(v_n: int)->bool{ if(v_n == 0 || v_f(v_n - 1), true, false) }", main_ty: "bool", main_body: "v_f({N})", tail: false, value: vtrue, frames_per_level: 1, calls_per_level: 1, extra_calls: 0, extra_height: 0, error_arg: false },
+        Placement { name: "nontail/or-right-then-and", decl: "fn v_f(v_n: int)->bool{ (v_n == 0 || v_f(v_n - 1)) && true }", main_ty: "bool", main_body: "v_f({N})", tail: false, value: vtrue, frames_per_level: 1, calls_per_level: 1, extra_calls: 0, extra_height: 0, error_arg: false },
+        Placement { name: "nontail/or-right-let-bound", decl: "fn v_f(v_n: int)->bool{ let v_r = v_n == 0 || v_f(v_n - 1); v_r }", main_ty: "bool", main_body: "v_f({N})", tail: false, value: vtrue, frames_per_level: 1, calls_per_level: 1, extra_calls: 0, extra_height: 0, error_arg: false },
+        t("nontail/optional-or-under-operator", "fn v_f(v_n: int, v_a: int)->int{ 0 + if(v_n == 0, some(v_a), none()).or(v_f(v_n - 1, v_a + 1)) }", false, 1),
+        t("nontail/if_error-2-under-operator", "fn v_f(v_n: int, v_a: int)->int{ 0 + if_error(if(v_n == 0, v_a, error(\"more\")), v_f(v_n - 1, v_a + 1)) }", false, 1),
+        t("nontail/if-under-cast-under-operator", "fn v_f(v_n: int, v_a: int)->int{ 0 + cast<int>(if(v_n == 0, v_a, v_f(v_n - 1, v_a + 1))) }", false, 1),
         t("nontail/if_error-protected", "fn v_f(v_n: int, v_a: int)->int{ if(v_n == 0, v_a, if_error(v_f(v_n - 1, v_a + 1), 0 - 1)) }", false, 1),
     ]
 }
